@@ -142,6 +142,16 @@ fn attr_site_mutations(attrs: &[syn::Attribute]) -> Vec<(String, Vec<syn::Attrib
             }
         }
     }
+    // a foreign attribute in front (path attributes have no single-identifier name)
+    for (k, f) in ["#[rustfmt::skip]", "#[a::b(c)]", "#[doc = \" d\"]"].iter().enumerate() {
+        if let Ok(ts) = lex(f) {
+            if let Ok(mut parsed) = syn::parse::Parser::parse2(syn::Attribute::parse_outer, ts) {
+                let mut v = attrs.to_vec();
+                v.insert(0, parsed.remove(0));
+                out.push((format!("insert-foreign-attr{k}"), v));
+            }
+        }
+    }
     out
 }
 
